@@ -536,9 +536,8 @@ func modelsRun(run *ev.Run, which string) {
 		mb, err := BuildModels("c02", specDoc)
 		if err != nil {
 			st["build-failed"]++
-			if which == "C02" {
-				run.Deviation("models-do-not-build", "a valid spec generates models that do not build: "+tail(err.Error(), 600), map[string]interface{}{"spec": json.RawMessage(specDoc)})
-			}
+			// a models package that does not compile is C01's finding; counted here, and a run in which nothing builds is a broken tie
+			st["subject-does-not-build(C01)"]++
 			if mb != nil {
 				mb.Remove()
 			}
@@ -591,7 +590,11 @@ func modelsRun(run *ev.Run, which string) {
 					}
 					st["calibrated"]++
 				}
-				if sc.Valid == sc.ValidSkip {
+				if strings.HasSuffix(what, "null:extra1") {
+					// JSON null as the value of an ADDITIONAL property: the generated map decodes it as the zero value (documented
+					// null reading); strict schema semantics reject it, the relaxed reading accepts it: either answer is admissible
+					st["documented-gap(null additional property)"]++
+				} else if sc.Valid == sc.ValidSkip {
 					if accepted != sc.Valid {
 						k := "accepts-invalid"
 						if sc.Valid {
@@ -644,6 +647,9 @@ func modelsRun(run *ev.Run, which string) {
 			}
 		}
 		mb.Remove()
+	}
+	if st["subject-does-not-build(C01)"] > 0 && run.Traces == 0 {
+		run.Broken("corr:"+which+":lab", "no models package of this run could be generated and compiled: the property was not exercised (see C01)", nil)
 	}
 	run.Extra["distribution"] = st
 }
